@@ -1,6 +1,7 @@
 package main
 
 import (
+	"go/constant"
 	"fmt"
 	"go/token"
 	"go/types"
@@ -1699,6 +1700,16 @@ func ruleCP1f(c *Ctx) *rule {
 	} else {
 		r.bad(fname(rl.fn)+" force<-Options.Force", c.pos(rl.force.Pos()), "the force parameter of the run loop is not Options.Force on every call chain: "+why)
 	}
+	// nothing in the module overwrites the option after the command line was parsed
+	for _, st := range c.fieldStores()["cli/app.Options.Force"] {
+		if !inModule(st.Parent()) || strings.HasSuffix(fnPkgPath(st.Parent()), "cli/cmd") {
+			continue // the flag binding
+		}
+		if k, isC := st.Val.(*ssa.Const); isC && k.Value != nil && constant.BoolVal(k.Value) {
+			continue // switching it on only forces more
+		}
+		r.bad(fname(st.Parent())+" Options.Force store", c.ipos(st), "the --force option is overwritten after the flags were parsed: under the condition of this store a forced run consults the cache again")
+	}
 	if len(rl.K) == 0 {
 		r.ok(fname(rl.fn)+" no-skip", c.ipos(rl.X), "nothing is ever reported skipped")
 		return r
@@ -2131,6 +2142,26 @@ func ruleCP12(c *Ctx) *rule {
 		if nWrite == 0 {
 			probs = append(probs, "no write of the encoded map in the persisting function")
 		}
+		// every return without error has the write behind it
+		for _, ret := range returnsOf(f) {
+			ev := returnedErr(ret)
+			if ev != nil && !isNilConst(ev) && !mayBeNil(ev, map[ssa.Value]bool{}) {
+				continue
+			}
+			written := false
+			for _, m := range c.mutatingSites() {
+				if m.fn != f || (m.callee != "os.WriteFile" && m.callee != "(*os.File).Write") {
+					continue
+				}
+				if in, isIn := m.site.(ssa.Instruction); isIn && before(in, ret) {
+					written = true
+				}
+			}
+			if !written && nWrite > 0 {
+				probs = append(probs, "a path returns without error and without having written the file ("+c.ipos(ret)+"): the caller believes the state is on disk")
+				break
+			}
+		}
 		for _, site := range callSites(f) {
 			n := calleeName(site.Common())
 			switch n {
@@ -2302,6 +2333,36 @@ func ruleAB2(c *Ctx) *rule {
 	}
 	if n == 0 {
 		r.undecided("module Options.Spokfile stores", "-", "the module never stores into Options.Spokfile")
+	}
+	// the flag that is bound to the field defaults to "": only then does an invocation without --spokfile search at all
+	for _, f := range c.ModFuncs {
+		for _, site := range callSites(f) {
+			bound := false
+			for _, a := range site.Common().Args {
+				if fieldKey(a) == "cli/app.Options.Spokfile" {
+					bound = true
+				}
+			}
+			if !bound {
+				continue
+			}
+			sig := site.Common().Signature()
+			if sig == nil {
+				continue
+			}
+			for i := 0; i < sig.Params().Len() && i < len(site.Common().Args); i++ {
+				p := sig.Params().At(i)
+				if p.Name() != "value" && p.Name() != "def" && p.Name() != "defaultValue" {
+					continue
+				}
+				key := fmt.Sprintf("%s --spokfile default", fname(f))
+				if v, isC := constString(site.Common().Args[i]); isC && v == "" {
+					r.ok(key, c.ipos(site), "the flag defaults to the empty string")
+				} else {
+					r.bad(key, c.ipos(site), "the --spokfile flag has a non-empty default ("+condText(site.Common().Args[i])+"): the option is never empty, so the search from the working directory upwards is never made")
+				}
+			}
+		}
 	}
 	return r
 }
